@@ -265,6 +265,12 @@ func (e *Engine) instr(st *State, fr *Frame, ins ssa.Instruction) {
 			e.set(st, x, Val{K: KAddr, Ty: x.Type(), A: &Addr{CellID: id, Ty: t}})
 			return
 		}
+		if at, ok := t.Underlying().(*types.Array); ok {
+			r := e.alloc(st, types.Typ[types.Int], false)
+			e.zeroElems(st, at.Elem(), r)
+			e.set(st, x, Val{K: KPtr, Ty: x.Type(), T: r})
+			return
+		}
 		r := e.alloc(st, t, true)
 		p := Val{K: KPtr, Ty: x.Type(), T: r}
 		e.storeHeapCell(st, t, r, e.zeroVal(t))
@@ -287,6 +293,7 @@ func (e *Engine) instr(st *State, fr *Frame, ins ssa.Instruction) {
 		switch base.K {
 		case KPtr:
 			e.nilCheck(st, fr, base.T, x.Pos(), x.X, "."+f.Name())
+			e.assumeTypeInv(st, pt, base.T)
 			if _, nested := isStruct(f.Type()); nested {
 				e.set(st, x, Val{K: KPtr, Ty: x.Type(), T: addInt(base.T, e.offsetOf(s, x.Field))})
 			} else {
@@ -319,6 +326,11 @@ func (e *Engine) instr(st *State, fr *Frame, ins ssa.Instruction) {
 			if pt := e.pointee(x.X.Type()); pt != nil {
 				if at, ok := pt.Underlying().(*types.Array); ok {
 					e.boundsCheck(st, fr, idx, bvLit(uint64(at.Len()), 64), x.Pos(), x.X, x.Index)
+					if base.K == KPtr {
+						e.nilCheck(st, fr, base.T, x.Pos(), x.X, "[]")
+						e.set(st, x, Val{K: KAddr, Ty: x.Type(), A: &Addr{ElBase: base.T, ElIdx: idx, ElTy: at.Elem(), Ty: at.Elem()}})
+						return
+					}
 					e.set(st, x, Val{K: KAddr, Ty: x.Type(), A: &Addr{Opaque: true, Ty: at.Elem()}})
 					return
 				}
@@ -808,6 +820,22 @@ func (e *Engine) sliceOp(st *State, fr *Frame, x *ssa.Slice) {
 		}
 		check(and("(bvsle "+z+" "+lo+")", "(bvsle "+lo+" "+hi+")", "(bvsle "+hi+" "+mx+")", "(bvsle "+mx+" "+v.X[2]+")"))
 		e.set(st, x, Val{K: KSlice, Ty: x.Type(), T: v.T, X: []string{"(bvadd " + v.X[0] + " " + lo + ")", "(bvsub " + hi + " " + lo + ")", "(bvsub " + mx + " " + lo + ")"}})
+	case KPtr:
+		if pt := e.pointee(x.X.Type()); pt != nil {
+			if at, ok := pt.Underlying().(*types.Array); ok {
+				n := bvLit(uint64(at.Len()), 64)
+				if hi == "" {
+					hi = n
+				}
+				if mx == "" {
+					mx = n
+				}
+				check(and("(bvsle "+z+" "+lo+")", "(bvsle "+lo+" "+hi+")", "(bvsle "+hi+" "+mx+")", "(bvsle "+mx+" "+n+")"))
+				e.set(st, x, Val{K: KSlice, Ty: x.Type(), T: v.T, X: []string{lo, "(bvsub " + hi + " " + lo + ")", "(bvsub " + mx + " " + lo + ")"}})
+				return
+			}
+		}
+		e.set(st, x, e.freshVal(st, "slice", x.Type()))
 	default:
 		e.set(st, x, e.freshVal(st, "slice", x.Type()))
 	}
@@ -1151,7 +1179,11 @@ func (e *Engine) convert(st *State, v Val, from, to types.Type) Val {
 		return Val{K: KFloat, Ty: to, T: "((_ to_fp_unsigned 11 53) RNE " + v.T + ")"}
 	case fk == KFloat && tk == KInt:
 		tw, ts := intInfo(to)
-		r := e.fresh("f2i", bvSort(tw))
+		// out-of-range conversions are implementation-defined but deterministic: an
+		// uninterpreted function of the operand, pinned to fp.to_sbv inside the int64 range
+		fnm := fmt.Sprintf("f2i.%d.%v", tw, ts)
+		e.declFun(fnm, "(Float64) "+bvSort(tw))
+		r := "(" + fnm + " " + v.T + ")"
 		if ts && tw == 64 {
 			inr := "(and (fp.lt " + v.T + " " + fpLit(9223372036854775808.0) + ") (fp.geq " + v.T + " " + fpLit(-9223372036854775808.0) + "))"
 			st.assume(implies(inr, eq(r, "((_ fp.to_sbv 64) RTZ "+v.T+")")))
@@ -1221,4 +1253,40 @@ func (e *Engine) retypeLit(v Val, t types.Type, w int) Val {
 		return Val{K: KInt, Ty: t, T: bvLit(u, w)}
 	}
 	return Val{K: KInt, Ty: t, T: v.T}
+}
+
+
+// assumeTypeInv: objects allocated before entry satisfy their declared type invariant in the
+// entry heap (an explicit, listed precondition on the input heap; instantiated at each use).
+func (e *Engine) assumeTypeInv(st *State, t types.Type, addr string) {
+	if e.noTypeInv {
+		return
+	}
+	n, ok := t.(*types.Named)
+	if !ok {
+		return
+	}
+	invs := e.P.specs.TypeInvs[shortTypeName(typeName(n))]
+	if len(invs) == 0 {
+		return
+	}
+	key := "typeinv:" + typeName(n) + ":" + addr
+	if st.facts[key] {
+		return
+	}
+	st.facts[key] = true
+	for _, ti := range invs {
+		env := &SpecEnv{vars: map[string]Val{"self": {K: KPtr, Ty: types.NewPointer(t), T: addr}}, pkg: e.P.typesPkg(ti.Pkg)}
+		e.usedTypeInvs[ti.Type+": "+ti.Text] = true
+		save := e.noTypeInv
+		e.noTypeInv = true
+		scr := e.entry.clone()
+		npc := len(scr.pc)
+		g := e.evalSpecBool(scr, scr, ti.Expr, env)
+		e.noTypeInv = save
+		for _, f := range scr.pc[npc:] {
+			st.assume(f)
+		}
+		st.assume(implies(fmt.Sprintf("(and (> %s 0) (< %s %s))", addr, addr, e.entry.A.term()), g))
+	}
 }
